@@ -63,6 +63,12 @@ func main() {
 		} else {
 			cpu1(*seed, *n, *tier)
 		}
+	case "mem04", "mem05", "mem06", "mem07":
+		if *replay != "" {
+			memReplay(*replay)
+		} else {
+			memStream(*seed, *n, int(stream[4]-'0'))
+		}
 	default:
 		fmt.Fprintln(os.Stderr, "unknown stream", stream)
 		os.Exit(2)
